@@ -831,7 +831,11 @@ func c19(args []string) {
 			src := &spec.Proc{Name: "S", Kind: spec.KFileSource, Files: files}
 			for _, f := range []string{"ha.txt", "hb.txt", "hc.txt"} {
 				var sb strings.Builder
-				for l := 0; l < 5; l++ {
+				nl := 5
+				if f == "ha.txt" {
+					nl = 27 // more than ten parts: part numbers do not sort like strings
+				}
+				for l := 0; l < nl; l++ {
 					fmt.Fprintf(&sb, "%s line %d\n", f, l)
 				}
 				s.Sources[f] = sb.String()
@@ -865,6 +869,19 @@ func c19(args []string) {
 						break
 					}
 					cat += string(b)
+				}
+				// whatever the second run emits for a file, it emits in part order
+				last := 0
+				for _, p := range recPaths(mon.Index(r2.Trace), "R") {
+					if strings.HasPrefix(p, f+".split_") {
+						k := 0
+						fmt.Sscanf(p[len(f)+len(".split_"):], "%d", &k)
+						if k < last {
+							ps = append(ps, mon.Problem{Sig: "splitter-emission-order:rerun-history", Msg: fmt.Sprintf("second run: part %d of %s was emitted after part %d", k, f, last)})
+							break
+						}
+						last = k
+					}
 				}
 				if cat != s2.Sources[f] {
 					ps = append(ps, mon.Problem{Sig: "splitter-parts-do-not-concatenate-to-input:rerun-history", Msg: fmt.Sprintf("second run over %v after a first run over [ha.txt]: the parts of %s concatenate to %d bytes, the file has %d", order, f, len(cat), len(s2.Sources[f]))})
